@@ -33,6 +33,9 @@ type c23Case struct {
 	// RuntimeZero: a runtime update that leaves TransferSize unset (0 = "the default") follows; the limits FSINFO
 	// advertises afterwards must still be served
 	RuntimeZero bool `json:"runtime_zero,omitempty"`
+	// FragBytes > 0: every call is sent as a record of fragments of that many bytes (a client may fragment as it likes;
+	// a WRITE of wtmax in 256 KiB fragments is still one record within the record limit)
+	FragBytes int `json:"frag_bytes,omitempty"`
 }
 
 var c23Sizes = []int{1, 7, 512, 4096, 65536, 100000, 1 << 20, 1 << 22, 0}
@@ -47,17 +50,28 @@ func genC23(t *rapid.T) c23Case {
 	if rapid.IntRange(0, 2).Draw(t, "shrink") == 0 {
 		c.ShrinkDuring = pick(t, "shrink_to", 1, 7, 512, 4096, 65536)
 	}
+	if rapid.Bool().Draw(t, "fragmented") {
+		c.FragBytes = pick(t, "frag_bytes", 100, 4096, 65536, 262144, 524288, 1000000)
+	}
 	return c
 }
 
 type c23Conn struct {
-	cl  *drv.TCPClient
-	xid uint32
+	cl   *drv.TCPClient
+	xid  uint32
+	frag int
 }
 
 func (c *c23Conn) call(proc uint32, prog uint32, args []byte) (*nfsx.Reply, error) {
 	c.xid++
-	rec, err := c.cl.RoundTrip(nfsx.Call(c.xid, prog, 3, proc, nfsx.AuthSys(1, "h", 0, 0, nil), nfsx.AuthNone(), args), 10*time.Second)
+	msg := nfsx.Call(c.xid, prog, 3, proc, nfsx.AuthSys(1, "h", 0, 0, nil), nfsx.AuthNone(), args)
+	var frags []int
+	if c.frag > 0 {
+		for n := c.frag; n < len(msg); n += c.frag {
+			frags = append(frags, c.frag)
+		}
+	}
+	rec, err := c.cl.RoundTrip(msg, 10*time.Second, frags...)
 	if err != nil {
 		return nil, err
 	}
@@ -120,7 +134,7 @@ func runC23(tb stat.TB, c c23Case) {
 		if err != nil {
 			tb.Fatalf("harness: dial: %v", err)
 		}
-		return &c23Conn{cl: cl, xid: 100}
+		return &c23Conn{cl: cl, xid: 100, frag: c.FragBytes}
 	}
 	conn := dial()
 	defer func() { conn.cl.Close() }()
